@@ -62,7 +62,7 @@ def compute_lower_bound_ks_agg(
     Returns:
         The KS function value.
     """
-    alpha = len(orig_val)
+    alpha = len(orig_val) if indices is None else len(orig_val[indices])
 
     return compute_upper_bound_ks_agg(orig_val, indices, rho, scale) - log(alpha) / rho
 
